@@ -72,7 +72,10 @@ Seps(t) ==
     [] OTHER -> CommaWsp
 SmallSeps(t) == IF <<>> \in Seps(t) THEN {<<>>, <<" ">>} ELSE {<<" ">>, <<",">>}
 
-Small == TextProfile = "grammar-small"
+\* "grammar-chain": only curve commands and their shorthands, so that chains Q T T T / C S S / t t / s s and shorthands
+\* after a non-curve command (the reflection degenerates to the current point) fill the random traces
+Chain == TextProfile = "grammar-chain"
+Small == TextProfile \in {"grammar-small", "grammar-chain"}
 ToksAt(c, k) ==        \* tokens allowed as the k-th argument of command c
   IF Upper(c) = "A" THEN (CASE k \in {1, 2} -> (IF Small THEN {t \in RadToks : t.v \in {20, 10, 0}} ELSE RadToks)
                              [] k = 3 -> (IF Small THEN {t \in RotToks : t.v \in {0, 90}} ELSE RotToks)
@@ -148,7 +151,8 @@ Repeat(t, sep) ==
   /\ IF NArgs(prev) = 1 THEN Finish(Repeats(prev), <<t.v>>)
      ELSE ph' = "arg" /\ acc' = <<t.v>> /\ UNCHANGED <<st, hist, p0, sp, lc, lq, prev>>
 
-LetterSet == IF Small THEN {"M", "m", "z", "L", "l", "h", "V", "Q", "t", "c", "S", "a", "A"} ELSE Letters
+LetterSet == IF Chain THEN {"M", "Q", "q", "T", "t", "C", "c", "S", "s", "l", "z"}
+             ELSE IF Small THEN {"M", "m", "z", "L", "l", "h", "V", "Q", "t", "c", "S", "a", "A"} ELSE Letters
 GNext ==
   \/ \E c \in LetterSet, lead \in (IF Small THEN {<<>>} ELSE {<<>>, <<" ">>}) : Letter(c, lead)
   \/ ph = "arg" /\ \E t \in ToksAt(cmd, Len(acc) + 1) : \E sep \in (IF Small THEN SmallSeps(t) ELSE Seps(t)) : Arg(t, sep)
@@ -207,7 +211,13 @@ Docs == <<
      "<path ", "d=\"M0 0H10V10z\" ", "fill=\"url(#g)\"", "/>", "</svg>" >> >>
 Broken == {"", "<", ">", "\"", "width=\"", "width=\"1e\" ", "d=\"M\" ", "d=\" \" ", "d=\"M1 1A\" ", "transform=\"rotate(\" ", "points=\"1\" ",
            "viewBox=\"0 0\" ", "viewBox=\"0 0 0 0\" ", "r=\"-1\" ", "width=\"-5%\" ", "style=\"fill\" ", "fill=\"url(#nope)\" ", "fill=\"url(\" ",
-           "</g>", "<svg>", "<path d=\"M0 0L1\"/>", "stroke-dasharray=\"a b\" ", "transform=\"matrix(1 2)\" ", "x=\"1ex\" ", "<style>", "<defs>"}
+           "</g>", "<svg>", "<path d=\"M0 0L1\"/>", "stroke-dasharray=\"a b\" ", "transform=\"matrix(1 2)\" ", "x=\"1ex\" ", "<style>", "<defs>",
+           \* unquoted attribute values of 1, 2 and 3 bytes (the XML lexer is lenient), a value cut after its opening quote
+           "x=0 ", "width=5 ", "id=a ", "x=10 ", "id=ab ", "x=100 ", "fill=red ", "x=\"", "x=\"\" ", "x=' ",
+           \* paint references: well-formed, quoted, and malformed
+           "fill=\"url(#g)\" ", "stroke=\"url(#g)\" ", "fill=\"url('#g')\" ", "fill=\"url(x#)\" ", "fill=\"url(#\" ", "fill=\"url()\" ",
+           "fill=\"url(#)\" ", "fill=\"url('#')\" ", "fill=\"url(#g\" ", "fill=\"url#g)\" ", "stroke=\"url(x#)\" ", "fill=\"url(xx#)\" ",
+           "style=\"fill:url(x#)\" ", "marker-start=\"url(x#)\" ", "clip-path=\"url(x#)\" ", "mask=\"url(#)\" "}
 DocMut(d) == {SubSeq(d, 1, i) : i \in 0..Len(d)} \cup {DelAt(d, i) : i \in 1..Len(d)} \cup {DupAt(d, i) : i \in 1..Len(d)}
              \cup {[d EXCEPT ![i] = b] : i \in 1..Len(d), b \in Broken}
 \* <style> selectors: 2 to 4 compounds (type or *) joined by child (>) and descendant (blank) combinators, applied to a
@@ -227,7 +237,10 @@ DInit == /\ acc \in {<<i>> : i \in 1..(Len(Docs) + 1)}
          /\ p0 = <<0, 0>> /\ sp = <<0, 0>> /\ lc = <<0, 0>> /\ lq = <<0, 0>> /\ prev = ""
 DNext == UNCHANGED tvars2
 DSpec == DInit /\ [][DNext]_tvars2
+\* orig: the unmutated document; every BYTE prefix of its concatenation is a scenario too (the driver cuts them: TLA+ has
+\* no access to the characters of a string), so that every byte position of the four documents is a truncation point
 DEmit == PrintT("@@" \o ToJson([kind |-> "doc", doc |-> acc[1],
+                                 orig |-> IF acc[1] <= Len(Docs) THEN Docs[acc[1]] ELSE <<>>,
                                  muts |-> IF acc[1] <= Len(Docs) THEN DocMut(Docs[acc[1]]) ELSE {SelDoc(sel) : sel \in Selectors}]))
 
 \* ---- printing: rules of comparison (header for the driver) -------------------------------------------
